@@ -716,8 +716,8 @@ def build_new_args(mk: Maker, qual, pnames, fn_sig):
         elif short == "from_file":
             v.update(path=strpath(maybe_missing(mk, path)), external_binary=rng.choice([None, None, strpath(ibd)]), use_fast_parse=fast)
         elif short == "extract_masses":
-            tm = rng.choice([np.array([150.0, 300.0, 450.0]), 250.0, np.array([[120.0, 480.0]])])
-            wd = rng.choice([(10000.0, None), (None, 5.0), (None, None), (10.0, 1.0)])
+            tm = rng.choice([np.array([150.0, 300.0, 450.0]), np.array([200.0]), 250.0, np.array([[120.0, 480.0]])])
+            wd = rng.choice([(10000.0, None), (50000.0, None), (None, 5.0), (None, 80.0), (None, None), (10.0, 1.0)])
             v.update(target_masses=tm, mass_width_ppm=wd[0], mass_width_mz=wd[1])
         elif short == "binned_masses":
             v["mass_width_mz"] = rng.choice([50.0, 100.0, 7.5])
